@@ -76,10 +76,18 @@ theorem transfer_tail {db : Db} {s3 s5 sF : JState} {src : Addr} {fa : Acct} {v 
     (hundo : undoTs (sdOf s3) (absT db sF) es = setBal (absT db s5) (absT db s3).balance)
     (hz : ∀ a, Entry.accountCreated a ∈ es → ∀ k, db.storage a k = 0)
     (hbF : BalOk (absT db s3) → BalOk (absT db sF))
+    (hgF : Grows s5 sF) (hrF : ∀ e, e ∈ es → refsOk sF e)
     (hnA : ∀ b, Entry.accountWarmed b ∉ es := by simp)
     (hnS : ∀ b k, Entry.storageWarmed b k ∉ es := by simp) :
     Pushes db s3 sF (es ++ td) := by
-  refine ⟨fun t r ht => ?_, ?_, ?_, ?_, ?_, ?_, hbF, ?_, ?_⟩
+  have g34 : Grows s3 (setAcct s3 src { fa with info := { fa.info with balance := fa.info.balance - v } }) :=
+    Grows.upd hs3 rfl
+  have g35 : Grows s3 s5 := Grows.trans g34 p45.grows
+  refine ⟨fun t r ht => ?_, ?_, ?_, ?_, ?_, ?_, hbF, ?_, ?_, Grows.trans g35 hgF, fun e he => ?_⟩
+  rotate_right
+  · rcases List.mem_append.1 he with h | h
+    · exact hrF e h
+    · exact refsOk_mono hgF (p45.refs e h)
   · rw [hjF _ _ (p45.journal t r (by simpa using ht)), List.append_assoc]
   · rw [hspec, p45.spec]; rfl
   · rw [hpre, p45.pre]; rfl
@@ -185,6 +193,7 @@ theorem transfer_pushes {db : Db} {s s' : JState} {src dst : Addr} {v : Nat} {r 
                     have ptail : Pushes db s3 (setAcct s5 src { f with info := { f.info with balance := U256.wadd f.info.balance v } }) ([] ++ _) :=
                       transfer_tail (es := []) hs3 p45 (touchedOnly_ite _ _)
                       (fun _ _ h => by simpa using h) rfl rfl rfl ?_ (by simp) ?_
+                      (hgF := Grows.upd hs5s rfl) (hrF := fun _ h => by simp at h)
                     refine ⟨⟨_, Pushes.trans p03 ptail⟩, wrest (Pushes.trans p3 ptail)
                       (NoWarm.append (NoWarm.append NoWarm.nil (NoWarm.touched _ _)) (NoWarm.touched _ _))⟩
                     · simp only [undoTs]
@@ -208,6 +217,16 @@ theorem transfer_pushes {db : Db} {s s' : JState} {src dst : Addr} {v : Nat} {r 
                     transfer_tail (es := [.balanceTransfer src dst v]) hs3 p45
                     (touchedOnly_ite _ _) (fun t r hj => by simpa using p7.journal t r (by simpa using hj))
                     p7.spec p7.pre p7.logs ?_ (by simp) ?_
+                    (hgF := Grows.congr_right p7.state (Grows.upd hs5 rfl))
+                    (hrF := fun e he => by
+                      simp at he; subst he
+                      refine refsOk_congr p7.state ?_
+                      have hsrc : ((setAcct s5 dst { ta with info := { ta.info with balance := ta.info.balance + v } }).state src).isSome := by
+                        by_cases e : src = dst
+                        · subst e; simp [setAcct_state_same]
+                        · rw [setAcct_state_ne _ _ e]
+                          exact p45.grows.acct src (by simp [setAcct_state_same])
+                      exact ⟨hsrc, by simp [setAcct_state_same]⟩)
                   refine ⟨⟨_, Pushes.trans p03 ptail⟩, wrest (Pushes.trans p3 ptail)
                     (NoWarm.append (NoWarm.append nwBT (NoWarm.touched _ _)) (NoWarm.touched _ _))⟩
                   · simp only [undoTs, e7, hB5]
@@ -242,7 +261,8 @@ theorem selfdestruct_self {db : Db} {s sF : JState} {a : Addr} {acc : Acct} (con
   have hb : acc.info.balance < W := by rw [← absT_balance_some db hs]; exact hbal a
   by_cases hc : cond
   · rw [if_pos hc] at h
-    refine ⟨_, Pushes.of_push h rfl rfl rfl rfl ?_ (by simp) ?_,
+    refine ⟨_, Pushes.of_push h rfl rfl rfl rfl ?_ (by simp) ?_ (hg := Grows.upd hs rfl)
+        (hr := by simp [refsOk, setAcct_state_same]),
       NoWarm.single (fun _ h => by cases h) (fun _ _ h => by cases h)⟩
     · simp [absT_setAcct, putA, undoT, absOf, upd_upd_same, ha, upd_self', absSlot_some, wadd_zero_left hb]
     · intro _ x
@@ -252,6 +272,11 @@ theorem selfdestruct_self {db : Db} {s sF : JState} {a : Addr} {acc : Acct} (con
       · rw [upd_ne' hx]; exact hbal x
   · rw [if_neg hc] at h; simp at h; subst h; exact ⟨[], Pushes.refl db s, NoWarm.nil⟩
 
+
+theorem Grows.upd2 {s : JState} {a t : Addr} {acc tacc acc' tacc' : Acct} (hs : s.state a = some acc)
+    (ht : s.state t = some tacc) (hat : ¬ a = t) (h1 : tacc'.storage = tacc.storage) (h2 : acc'.storage = acc.storage) :
+    Grows s (Model.Journal.setAcct (Model.Journal.setAcct s t tacc') a acc') :=
+  Grows.trans (Grows.upd (acc' := tacc') ht h1) (Grows.upd (acc := acc) ((setAcct_state_ne s _ hat).trans hs) h2)
 
 /-- `selfdestruct`, `a ≠ target`: credit of the (touched) target, then the debit of `a` with its entry -/
 theorem selfdestruct_other {db : Db} {s sF : JState} {a t : Addr} {acc tacc : Acct} (cond : Prop) [Decidable cond]
@@ -282,12 +307,16 @@ theorem selfdestruct_other {db : Db} {s sF : JState} {a t : Addr} {acc tacc : Ac
       · rw [upd_ne' hx2]; exact hbal x
   by_cases hc : cond
   · rw [if_pos hc] at h
-    refine ⟨_, Pushes.of_push h rfl rfl rfl rfl ?_ (by simp) (fun _ => hB _ rfl),
+    refine ⟨_, Pushes.of_push h rfl rfl rfl rfl ?_ (by simp) (fun _ => hB _ rfl)
+        (hg := Grows.upd2 hs hst hat rfl rfl)
+        (hr := by simp [refsOk, setAcct_state_same, setAcct_state_ne _ _ hta]),
       NoWarm.single (fun _ h => by cases h) (fun _ _ h => by cases h)⟩
     simp [absT_setAcct, putA, undoT, absOf, upd_upd_same, ha, hta', upd_self', upd_ne', absSlot_some, hta, hat,
       wadd_zero_left hb, upd_upd_upd_ne, bsub_wadd_cancel htb hb]
   · rw [if_neg hc] at h
-    refine ⟨_, Pushes.of_push h rfl rfl rfl rfl ?_ (by simp) (fun _ => hB _ rfl),
+    refine ⟨_, Pushes.of_push h rfl rfl rfl rfl ?_ (by simp) (fun _ => hB _ rfl)
+        (hg := Grows.upd2 hs hst hat rfl rfl)
+        (hr := by simp [refsOk, setAcct_state_same, setAcct_state_ne _ _ hta]),
       NoWarm.single (fun _ h => by cases h) (fun _ _ h => by cases h)⟩
     simp [absT_setAcct, putA, undoT, absOf, upd_upd_same, ha, hta', upd_self', upd_ne', absSlot_some, hta, hat,
       wadd_zero_left hb, upd_upd_upd_ne, bsub_wadd_cancel htb hb]
